@@ -578,9 +578,14 @@ Proof.
     unfold encode_msgp; cbn [v v_pf v_per v_dig v_encdig v_oper v_oprop v_rnd v_snd v_step v_p v_p1s v_p2 v_p2s v_s].
     fold v. rewrite <- Hcr. unfold prop_count; cbn [v v_dig v_encdig v_oper v_oprop].
     rewrite Senc, E0, E1, E2, E3, E4.
-    unfold when_present at 2 3. unfold has in Hrnd1, Hsnd1.
-    destruct (is_nil (sval (rslot its 2))); [discriminate|].
-    destruct (is_nil (sval (rslot its 3))) eqn:Nsnd; [discriminate|].
+    assert (Nrnd : is_nil (sval (rslot its 2)) = false)
+      by (unfold has in Hrnd1; destruct (is_nil (sval (rslot its 2))); [discriminate | reflexivity]).
+    assert (Nsnd : is_nil (sval (rslot its 3)) = false)
+      by (unfold has in Hsnd1; destruct (is_nil (sval (rslot its 3))); [discriminate | reflexivity]).
+    replace (when_present (sval (rslot its 2)) (fxk K_rnd ++ sval (rslot its 2)))
+      with (fxk K_rnd ++ sval (rslot its 2)) by (unfold when_present; rewrite Nrnd; reflexivity).
+    replace (when_present (sval (rslot its 3)) (fxk K_snd ++ [196; 32] ++ sval (rslot its 3)))
+      with (fxk K_snd ++ [196; 32] ++ sval (rslot its 3)) by (unfold when_present; rewrite Nsnd; reflexivity).
     unfold enc_bin, enc_u. rewrite <- !fxk_fx.
     assert (Lsnd : List.length (sval (rslot its 3)) = 32%nat).
     { unfold opt, is_bin in W3. rewrite Nsnd in W3. simpl in W3. apply Nat.eqb_eq in W3. exact W3. }
